@@ -108,6 +108,15 @@ pub fn gen(seed: u64, b: i64, nops: usize) -> Value {
             if nimp >= W / 2 {
                 continue;
             }
+            // now and then the id of a frame that is (probably) already stored: the same frame again is
+            // a no-op, a different one must be rejected whole
+            if !stored.is_empty() && rng.gen_range(0..100) < 12 {
+                let id = stored[rng.gen_range(0..stored.len())];
+                let c = if rng.gen_bool(0.6) || ctxs.is_empty() { 0 } else { ctxs[rng.gen_range(0..ctxs.len())] };
+                let topic = topics[rng.gen_range(0..3)];
+                ops.push(json!({"op": "import", "id": id, "ctx": c, "topic": topic, "ttl": {"k": "forever", "n": 0}}));
+                continue;
+            }
             let it = rng.gen_range(0..t + 3);
             let id = it * W + nimp;
             nimp += 1;
